@@ -328,7 +328,7 @@ def _invoke(it, label, me, args):
         return ("raise", r.name)
 
 
-@rule("C17.rational-identities", props=["C17"], min_instances=30, mutants=[
+@rule("C17.rational-identities", props=["C17", "C02", "C03", "C04", "C05", "C06", "C07", "C11"], min_instances=30, mutants=[
     ("sum numerator na*da + nb*db", ("polynomial", "            nn, nd = na * db + nb * da, da * db", "            nn, nd = na * da + nb * db, da * db")),
     ("equal-denominator shortcut keeps the product denominator", ("polynomial", "            nn = na + nb\n            nd = da", "            nn = na + nb\n            nd = da * db")),
     ("product shortcut returns self when other == 0", ("polynomial", "        if other == 0: return other\n        if other == 1: return self", "        if other == 0: return self\n        if other == 1: return self")),
@@ -495,7 +495,8 @@ POLY_PAIRS = [("a", "b"), ("b", "a"), ("2a+3b", "-2a+c"), ("a+ab+b", "-a-ab"), (
               ("c+d", "5+a"), ("tiny a + b", "tiny 2a + b"), ("0.5a", "-0.25a+b"), ("tiny a + b", "0.5a")]
 
 
-@rule("C17.polynomial-arith", props=["C17"], min_instances=60, mutants=[
+@rule("C17.polynomial-arith", props=["C17", "C02", "C03", "C04", "C05", "C06", "C07", "C11", "C19"], min_instances=65, mutants=[
+    ("division by an integer floors the coefficients", ("polynomial", "        # Assume scalar\n        return self * (1 / other)", "        # Assume scalar\n        if isinstance(other, int):\n            return self.__class__([[monomial[0] // other, *monomial[1:]] for monomial in self.args])\n        return self * (1 / other)")),
     ("merged coefficient appended unconditionally", ("polynomial", "                if ea[0] != 0:\n                    res.append(ea)", "                res.append(ea)")),
     ("merge advances only one cursor on equal monomials", ("polynomial", "                ai += 1\n                bi += 1\n        return self.__class__(res)", "                ai += 1\n        return self.__class__(res)")),
     ("product drops a factor of the right monomial", ("polynomial", "                    if isinstance(eb, str): C.append(eb)\n                    else: C[0] *= eb\n                    j += 1", "                    if isinstance(eb, str) and eb not in C: C.append(eb)\n                    else: C[0] *= eb if not isinstance(eb, str) else 1\n                    j += 1")),
@@ -554,6 +555,138 @@ def polynomial_arith(ctx):
             except NoValue as exc:
                 raise Unknown(c, str(exc), fn)
             _check_poly(ctx, c, fn, out, spec(poly_from_args(POLY_REPS[l])), f"{num} {meth} ({l})")
+    # division by a plain number (the 1/k! of the outer exponential, the n/i of the iterative inverse): exact for the
+    # representatives (odd coefficients divided by 2, 4 and 0.5)
+    q = f"{P}.__truediv__"
+    fn = ctx.func(q)
+    for l, k in (("2a+3b", 2), ("5+a", 4), ("a+ab+b", 2), ("-3b", 0.5), ("3", 2)):
+        c = f"{q}#({l}),{k}"
+        it = new_interp(repo)
+        try:
+            out = it.run(q, [mk(it, "Polynomial", [list(m) for m in POLY_REPS[l]]), k])
+        except NoValue as exc:
+            raise Unknown(c, str(exc), fn)
+        _check_poly(ctx, c, fn, out, poly_from_args(POLY_REPS[l]) * Poly.const(Fraction(1) / Fraction(k)), f"({l}) / {k}")
+
+
+def _rat(num: Poly, den: Poly = None):
+    """Stand-in for a sympy expression: the rational function num/den, closed under + - * / with its kind and numbers."""
+    den = den if den is not None else Poly.const(1)
+    o = Obj("sympy-expr", {"num": num, "den": den, "fmt": f"({num!r})/({den!r})"})
+
+    def lift(v):
+        if isinstance(v, Obj) and v.kind == "sympy-expr":
+            return v.attrs["num"], v.attrs["den"]
+        if isinstance(v, (int, float, Fraction)) and not isinstance(v, bool):
+            return Poly.const(Fraction(v)), Poly.const(1)
+        return None
+
+    def binop(op, other, refl):
+        r = lift(other)
+        if r is None:
+            return Unk("sympy arithmetic")
+        (an, ad), (bn, bd) = ((r, (num, den)) if refl else ((num, den), r))
+        if op == "Add":
+            return _rat(an * bd + bn * ad, ad * bd)
+        if op == "Sub":
+            return _rat(an * bd - bn * ad, ad * bd)
+        if op == "Mult":
+            return _rat(an * bn, ad * bd)
+        if op == "Div":
+            if bn.is_zero():
+                raise Raised("ZeroDivisionError")
+            return _rat(an * bd, ad * bn)
+        return Unk("sympy arithmetic")
+    o.methods["binop"] = binop
+    o.methods["unop"] = lambda op: _rat(-num, den) if op == "USub" else o
+    return o
+
+
+def _sympy_standins(it):
+    def mul(*factors, **kw):
+        acc = _rat(Poly.const(1))
+        for f in factors:
+            acc = acc.methods["binop"]("Mult", f, False)
+            if isinstance(acc, Unk):
+                raise NoValue("Mul of a non-expression")
+        return acc
+
+    def add(*terms, **kw):
+        acc = _rat(Poly())
+        for t in terms:
+            acc = acc.methods["binop"]("Add", t, False)
+            if isinstance(acc, Unk):
+                raise NoValue("Add of a non-expression")
+        return acc
+    table = {"Symbol": PyFunc(lambda name, *a, **k: _rat(Poly.atom(str(name))), "Symbol", True),
+             "Mul": PyFunc(mul, "Mul", True), "Add": PyFunc(add, "Add", True),
+             "Integer": PyFunc(lambda v: _rat(Poly.const(Fraction(v))), "Integer", True),
+             "sympify": PyFunc(lambda v: v if isinstance(v, Obj) else _rat(Poly.const(Fraction(v))), "sympify", True)}
+    it.standins["sympy"] = Obj("module:sympy", dict(table))
+    for k, v in table.items():
+        it.standins[f"sympy.{k}"] = v
+
+
+TOSYMPY_POLYS = ["2a+3b", "a+ab+b", "5+a", "3", "0", "a^2", "-a-ab", "1", "0.5a"]
+TOSYMPY_RATIONALS = {
+    "(2a+3b)/c": ([[2, "a"], [3, "b"]], [[1, "c"]]), "x/2": ([[1, "x"]], [[2]]), "1/4": ([[1]], [[4]]),
+    "a/1": ([[1, "a"]], [[1]]), "(5+a)/(3b)": ([[5], [1, "a"]], [[3, "b"]]), "2xz/(3z)": ([[2, "x", "z"]], [[3, "z"]]),
+    "(a+b)/(-1)": ([[1, "a"], [1, "b"]], [[-1]]),
+}
+
+
+@rule("C17.tosympy", props=["C17", "C11", "C12"], min_instances=14, mutants=[
+    ("a constant denominator is taken for 1", ("polynomial", "        return self.numer.tosympy() / self.denom.tosympy()", "        if len(self.denom) == 1 and len(self.denom[0]) == 1:\n            return self.numer.tosympy()\n        return self.numer.tosympy() / self.denom.tosympy()")),
+    ("coefficients dropped in the conversion", ("polynomial", "        preprocessed = (monomial if len(monomial) == 1 else monomial[1:] if monomial[0] == 1 else monomial\n                        for monomial in self.args)\n        sympified", "        preprocessed = (monomial if len(monomial) == 1 else monomial[1:]\n                        for monomial in self.args)\n        sympified")),
+    ("the fraction is converted upside down", ("polynomial", "        return self.numer.tosympy() / self.denom.tosympy()", "        return self.denom.tosympy() / self.numer.tosympy()")),
+], rewrites=[
+    ("unit coefficients stripped from constants too (the empty product is 1)", ("polynomial", "        preprocessed = (monomial if len(monomial) == 1 else monomial[1:] if monomial[0] == 1 else monomial\n                        for monomial in self.args)\n        sympified", "        preprocessed = (monomial[1:] if monomial[0] == 1 else monomial\n                        for monomial in self.args)\n        sympified")),
+])
+def tosympy_rule(ctx):
+    """Conversion to sympy preserves the function: Polynomial.tosympy / RationalPolynomial.tosympy are interpreted with
+    Symbol / Mul / Add standing for exact rational-function arithmetic, and the result is compared with the function the
+    term lists denote."""
+    repo = ctx.repo
+    q = f"{P}.tosympy"
+    fn = ctx.func(q)
+    for l in TOSYMPY_POLYS:
+        c = f"{q}#({l})"
+        it = new_interp(repo)
+        _sympy_standins(it)
+        try:
+            out = it.run(q, [mk(it, "Polynomial", [list(m) for m in POLY_REPS[l]])])
+        except NoValue as exc:
+            raise Unknown(c, str(exc), fn)
+        want = poly_from_args(POLY_REPS[l])
+        _check_rat(ctx, c, fn, out, want, Poly.const(1), f"({l}).tosympy()")
+    q = f"{RP}.tosympy"
+    fn = ctx.func(q)
+    for l, (n, d) in TOSYMPY_RATIONALS.items():
+        c = f"{q}#{l}"
+        it = new_interp(repo)
+        _sympy_standins(it)
+        try:
+            out = it.run(q, [mk(it, "RationalPolynomial", [list(m) for m in n], [list(m) for m in d])])
+        except NoValue as exc:
+            raise Unknown(c, str(exc), fn)
+        _check_rat(ctx, c, fn, out, poly_from_args(n), poly_from_args(d), f"({l}).tosympy()")
+
+
+def _check_rat(ctx, c, fn, out, wn: Poly, wd: Poly, what):
+    if out[0] == "raise":
+        ctx.violation(c, f"{what} raises {out[1]}", fn)
+        return
+    v = out[1]
+    if isinstance(v, (int, float, Fraction)) and not isinstance(v, bool):
+        v = _rat(Poly.const(Fraction(v)))
+    if not (isinstance(v, Obj) and v.kind == "sympy-expr"):
+        raise Unknown(c, f"{what} returns {v!r}", fn)
+    gn, gd = v.attrs["num"], v.attrs["den"]
+    if gd.is_zero() or not (gn * wd - wn * gd).is_zero():
+        ctx.violation(c, f"{what} denotes ({gn!r}) / ({gd!r}), but the object denotes ({wn!r}) / ({wd!r}): conversion to sympy "
+                         f"changes the function", fn)
+    else:
+        ctx.ok(c, fn, value=f"({gn!r}) / ({gd!r})")
 
 
 def _check_poly(ctx, c, fn, out, want: Poly, what):
